@@ -62,6 +62,10 @@ MODELS = {
         "inv": ["Prefix", "Complete", "BoundedK", "MeasureNonNeg", "Bounded", "Emit"],
         "prop": ["Measure", "Fused"],
     },
+    "MC_Sdes": {
+        "inv": ["Agree", "Incremental", "ReadsInBounds", "Aligned", "CleanIsMust", "FirstDefect", "Emit"],
+        "prop": ["Progress"],
+    },
     "MC_Compound": {
         "inv": ["AcceptIffPartition", "IterBounded", "IterFaithful", "StopsAfterError", "IterComplete", "NoEarlyEnd", "Emit"],
         "prop": ["Fused"],
@@ -69,16 +73,20 @@ MODELS = {
 }
 
 # property -> list of (model, {tier: constants}, {tier: max behaviours replayed (seeded sample); absent = all})
+SDESM_Q = {"MaxChunks": 2, "MaxItems": 1, "MaxItemsRest": 1, "SPads": tla_set([0, 4])}
+SDESM_T = {"MaxChunks": 2, "MaxItems": 2, "MaxItemsRest": 1, "SPads": tla_set([0, 4])}
 FRAME_PLAN = ("MC_Bytes", {"quick": FRAME_Q, "thorough": FRAME_T}, {"quick": 6000, "thorough": 150000})
 PLAN = {
     "C01": [FRAME_PLAN, ("MC_Bytes", {"quick": SDES_Q, "thorough": SDES_T}, {"quick": 6000, "thorough": 100000}),
+            ("MC_Sdes", {"quick": SDESM_Q, "thorough": SDESM_T}, {"quick": 2500, "thorough": 60000}),
             ("MC_Bytes", {"quick": FCI_Q, "thorough": FCI_T}, {"quick": 3000, "thorough": 100000})],
     "C08": [("MC_Bytes", {"quick": FRAME_Q, "thorough": FRAME_T}, {"thorough": 300000})],
     "C09": [FRAME_PLAN, ("MC_Writer", {"quick": W('{"sr", "rr", "bye", "app", "tfb", "pfb"}', 2), "thorough": W('{"sr", "rr", "bye", "app", "tfb", "pfb"}', 3, fam=True)},
                          {"quick": 3000, "thorough": 60000})],
     "C12": [FRAME_PLAN],
     "C18": [FRAME_PLAN, ("MC_Bytes", {"quick": SDES_Q, "thorough": SDES_T}, {"quick": 5000, "thorough": 100000})],
-    "C10": [("MC_Bytes", {"quick": SDES_Q, "thorough": SDES_T}, {}), ("MC_Bytes", {"thorough": SDES_T2}, {})],
+    "C10": [("MC_Bytes", {"quick": SDES_Q, "thorough": SDES_T}, {}), ("MC_Bytes", {"thorough": SDES_T2}, {}),
+            ("MC_Sdes", {"quick": SDESM_Q, "thorough": SDESM_T}, {"quick": 6000})],
     "C02": [("MC_Writer", {"quick": W('{"sr", "rr"}', 2, inter=True), "thorough": W('{"sr", "rr"}', 3, wrap=True, inter=True)}, {})],
     "C03": [("MC_Writer", {"quick": W('{"sdes"}', 2, fam=True, inter=True), "thorough": W('{"sdes"}', 3, fam=True, wrap=True, inter=True)}, {})],
     "C04": [("MC_Writer", {"quick": W('{"bye", "app"}', 2, inter=True), "thorough": W('{"bye", "app"}', 3, wrap=True, inter=True)}, {})],
